@@ -27,6 +27,21 @@ TLA_DEPS = "/opt/veriftools/tla/CommunityModules-deps.jar"
 NCPU = os.cpu_count() or 4
 
 
+FEATURES = ["d_calendar", "d_conn_enum", "d_cookies", "d_exchange", "d_framing", "d_head", "d_headers", "d_logfiles",
+            "d_logger", "d_logjson", "d_response", "d_server", "d_permit_race", "d_sse"]
+DRIVER_FEATURE = {
+    "conn-enum": "d_conn_enum", "head-gen": "d_head", "head-splits": "d_head", "req-splits": "d_head", "head-tcp": "d_head",
+    "resp-gen": "d_response", "chunk-lens": "d_response", "chunk-gen": "d_response", "resp-faults": "d_response",
+    "status-all": "d_response", "builder-gen": "d_response", "exchange-gen": "d_exchange", "upload-diskfull": "d_exchange",
+    "recv-body": "d_exchange", "limits": "d_exchange", "permit-race": "d_permit_race", "tokens-enum": "d_server",
+    "server-stress": "d_server", "sse-replay": "d_sse", "sse-content": "d_sse", "sse-threads": "d_sse",
+    "date-sweep": "d_calendar", "json-scalars": "d_logjson", "json-lines": "d_logjson", "logger-threads": "d_logger",
+    "logwriter-run": "d_logfiles", "logwriter-crash": "d_logfiles", "fileset-ops": "d_logfiles", "cookie-set": "d_cookies",
+    "cookie-req": "d_cookies", "headers-enum": "d_headers", "ascii-ctors": "d_headers", "framing-gen": "d_framing",
+    "pipeline-gen": "d_framing",
+}
+
+
 class ToolError(Exception):
     pass
 
@@ -60,6 +75,8 @@ class Ctx:
         self.failures = []      # dicts: driver, sid, why, events, args
         self.samples = []
         self.notes = []
+        self.disabled_features = set()
+        self.skipped_drivers = set()
         self.unattributed = []   # rejected scenarios outside this property's clauses (reported, not violations)
         self.assumptions = []
         self.rule = ""
@@ -86,16 +103,55 @@ class Ctx:
             cmd += ["--config", 'paths=["%s"]' % alt]
             log(f"[build] NOTE: servlin taken from {alt} instead of /repo (VERIF_REPO is set)")
         r = run(cmd, cwd=HARNESS, env=env, timeout=1800)
-        if r.returncode != 0:
+        if r.returncode == 0:
+            log(f"[build] harness built against /repo working tree in {time.time()-t:.1f}s")
+            return
+        # The harness calls servlin's `internal` API; a change to the signature of one such function stops the module
+        # that calls it from compiling.  That is not a verdict on any property, and it must not take the other modules'
+        # checks with it: find the driver modules that still compile (one cargo feature each) and build those.
+        errs = "\n".join(l for l in r.stdout.splitlines() if l.startswith("error") or l.lstrip().startswith("-->"))
+        key = hashlib.sha1(errs.encode()).hexdigest()
+        cache_p = os.path.join(VERIF, "work", "build_probe.json")
+        ok = None
+        try:
+            c = json.load(open(cache_p))
+            if c.get("key") == key:
+                ok = c["ok"]
+        except Exception:
+            pass
+        if ok is None:
+            ok = []
+            for f in FEATURES:
+                rr = run(cmd + ["--no-default-features", "--features", f], cwd=HARNESS, env=env, timeout=1800)
+                if rr.returncode == 0:
+                    ok.append(f)
+            os.makedirs(os.path.dirname(cache_p), exist_ok=True)
+            json.dump({"key": key, "ok": ok}, open(cache_p, "w"))
+        if not ok:
             tail = "\n".join(r.stdout.splitlines()[-40:])
             raise ToolError("harness build failed (servlin no longer compiles with the harness?)\n" + tail)
-        log(f"[build] harness built against /repo working tree in {time.time()-t:.1f}s")
+        rr = run(cmd + ["--no-default-features", "--features", ",".join(ok)], cwd=HARNESS, env=env, timeout=1800)
+        if rr.returncode != 0:
+            raise ToolError("harness build failed\n" + "\n".join(rr.stdout.splitlines()[-40:]))
+        self.disabled_features = set(FEATURES) - set(ok)
+        first = next((l for l in r.stdout.splitlines() if l.startswith("error")), "")
+        msg = (f"driver module(s) {sorted(self.disabled_features)} of the harness do not compile against this tree "
+               f"({first.strip()[:160]}): servlin's internal API changed under them; their drivers are skipped")
+        log("[build] NOTE: " + msg)
+        self.notes.append(msg)
+        log(f"[build] harness built (reduced) in {time.time()-t:.1f}s")
 
     # ------------------------------------------------------------------ drivers
     def drive(self, driver, name=None, timeout=1500, env=None, **opts):
         """Runs `vh <driver> --out work/<name>.ndjson` and returns the trace path."""
         name = name or driver
         out = os.path.join(self.work, name + ".ndjson")
+        if DRIVER_FEATURE.get(driver) in self.disabled_features:
+            log(f"[drive] {driver}: SKIPPED, its module does not compile against this tree")
+            self.skipped_drivers.add(name)
+            self.skipped_drivers.add(driver)
+            open(out, "w").close()
+            return out
         cmd = [VH, driver, "--out", out, "--seed", str(self.seed)]
         for k, v in opts.items():
             cmd += ["--" + k.replace("_", "-"), str(v)]
@@ -225,6 +281,11 @@ class Ctx:
         """Validates a recorded trace (impl -> spec).  The trace is split at Reset events into
         shards, one TLC process each.  Returns (nvalid, bad) and records failures."""
         cfg = cfg or trace_spec
+        if driver in self.skipped_drivers:
+            self.validations.append({"trace_spec": trace_spec, "driver": driver, "events": 0, "scenarios": 0, "accepted": 0,
+                                     "rejected": 0, "tlc_states": 0, "shards": 0, "wall_s": 0,
+                                     "skipped": "driver module does not compile against this tree"})
+            return
         scen = split_scenarios(trace)
         nlines = sum(len(s) for s in scen)
         lint_bigints(trace)
@@ -308,6 +369,9 @@ class Ctx:
 
     # ------------------------------------------------------------------ verdict
     def finish(self):
+        if self.skipped_drivers and not self.drivers:
+            raise ToolError("none of this property's drivers compiles against this tree (servlin's internal API changed "
+                            "under the harness): no verdict")
         known = [k for k in json.load(open(os.path.join(VERIF, "known_findings.json")))["findings"]
                  if k.get("property") == self.pid and k.get("status") == "known"]
         printed_known = {}
